@@ -341,6 +341,13 @@ func init() {
 			}
 			panic(HarnessError("replay names unknown job " + name))
 		}
+		if !c.Thorough() {
+			n := 0
+			for n < len(jobs) && !jobs[n].sc.ThoroughOnly {
+				n++
+			}
+			jobs = jobs[:n]
+		}
 		per := 60 * time.Second
 		if c.Thorough() {
 			per = 15 * time.Minute
